@@ -4,6 +4,7 @@ Require Extraction.
 Require Import ExtrOcamlBasic.
 From Coq Require Import ZArith NArith List QArith.
 Require Import Yui.Base.Ring Yui.Model.Lc Yui.Model.Mono Yui.Model.Poly.
+Require Import Yui.Proofs.C16RestPowZ.   (* definitions only: Pow with a signed exponent *)
 Extraction Language OCaml.
 Extraction "../ocaml/gen/c16_model.ml"
   Z.add N.add Nat.add Z.compare Z.div Z.modulo Z.eqb Z.ltb Z.leb
@@ -18,8 +19,8 @@ Extraction "../ocaml/gen/c16_model.ml"
   Poly.p_from_iter Poly.p_from_pair Poly.p_from_const Poly.p_from_mono Poly.p_one Poly.p_coeff Poly.p_nterms
   Poly.p_is_zero Poly.p_eqb Poly.p_is_mono Poly.p_as_mono Poly.p_is_const Poly.p_const_term Poly.p_is_one
   Poly.p_lead_term Poly.p_lead_coeff Poly.p_lead_mono Poly.p_add Poly.p_sub Poly.p_neg Poly.p_smul Poly.p_lc_mul
-  Poly.p_mul Poly.p_pow Poly.p_inv Poly.p_is_unit Poly.p_normalizing_unit Poly.p_eval
-  Poly.rd Poly.step Poly.run Poly.raw_step Poly.raw_run
+  Poly.p_mul Poly.p_pow C16RestPowZ.p_pow_z Poly.p_inv Poly.p_is_unit Poly.p_normalizing_unit Poly.p_eval
+  Poly.rd Poly.wr Poly.step Poly.run Poly.raw_step Poly.raw_run
   Poly.eval1 Poly.eval2 Poly.eval3 Poly.lead_term_for
   Poly.h_zero Poly.h_one Poly.h_is_zero Poly.h_is_one Poly.h_eqb Poly.h_neg Poly.h_add Poly.h_sub Poly.h_smul
   Poly.h_mul Poly.h_coeff.
